@@ -87,7 +87,7 @@ func newVSCfg(w *world, typ byte, blocks []int, fullInvalid bool) *vsCfg {
 		name string
 		f    func(i int, d *vdesc)
 		full bool
-	}{
+	}{ // the part of the name before the first '-' or '@' is not a category; categories are derived in category()
 		{"A-bad-sig", func(i int, d *vdesc) { d.corrupt = true }, false},
 		{"B-bad-sig", func(i int, d *vdesc) { d.corrupt = true; d.block = idB }, false},
 		{"A-sig-of-other-validator", func(i int, d *vdesc) { d.signer = other(w, i, 0) }, false},
@@ -122,6 +122,27 @@ func newVSCfg(w *world, typ byte, blocks []int, fullInvalid bool) *vsCfg {
 	return c
 }
 
+// category maps an invalid-vote kind to the clause of the property it violates (one violation key per clause).
+func category(kind string) string {
+	switch kind {
+	case "A-bad-sig", "B-bad-sig", "A-sig-of-other-validator", "A-other-chain":
+		return "signature"
+	case "A@H+1":
+		return "height"
+	case "A@R+1", "A@R-1":
+		return "round"
+	case "A-other-type":
+		return "type"
+	case "A-wrong-index", "A-index-minus-1", "A-index-out-of-range":
+		return "index"
+	case "A-wrong-address", "A-empty-address":
+		return "address"
+	case "A-wrong-size":
+		return "size"
+	}
+	return kind
+}
+
 // ---- reference tally ----
 
 type mblock struct {
@@ -131,17 +152,16 @@ type mblock struct {
 }
 
 type model struct {
-	c         *vsCfg
-	first     []int // event id of the vote kept as the validator's canonical vote (-1 none)
-	sum       int64 // power of validators counted in the round total
-	blocks    map[int]*mblock
-	maj23     int // block index, -1 none
-	peers     map[string]int
-	delivered map[[2]int]bool // (validator, block): a fully valid vote was delivered
+	c      *vsCfg
+	first  []int // event id of the vote kept as the validator's canonical vote (-1 none)
+	sum    int64 // power of validators counted in the round total
+	blocks map[int]*mblock
+	maj23  int // block index, -1 none
+	peers  map[string]int
 }
 
 func newModel(c *vsCfg) *model {
-	m := &model{c: c, first: make([]int, c.w.n), blocks: map[int]*mblock{}, maj23: -1, peers: map[string]int{}, delivered: map[[2]int]bool{}}
+	m := &model{c: c, first: make([]int, c.w.n), blocks: map[int]*mblock{}, maj23: -1, peers: map[string]int{}}
 	for i := range m.first {
 		m.first[i] = -1
 	}
@@ -217,7 +237,6 @@ func (m *model) addVote(eid int) (string, int) {
 	if !d.signedOK(v) {
 		return clSignature, -1
 	}
-	m.delivered[[2]int{v, d.block}] = true
 	conflict := -1
 	if m.first[v] >= 0 {
 		conflict = m.first[v]
@@ -415,6 +434,12 @@ func (c *vsCfg) exec(hist []int) (out vk.Outcome) {
 			}
 			got := classify(added, err)
 			want, conflictWith := clNil, -1
+			// the validator's canonical vote before this step: the first valid vote a validator delivers is always
+			// kept, so "has a valid vote for another block id on record" is a fact of the history, not of a policy
+			earlier := -1
+			if e.kind == evVote && e.d.idx >= 0 && e.d.idx < w.n {
+				earlier = m.first[e.d.idx]
+			}
 			if e.kind == evVote {
 				want, conflictWith = m.addVote(eid)
 			}
@@ -432,23 +457,14 @@ func (c *vsCfg) exec(hist []int) (out vk.Outcome) {
 				if e.kind == evVote {
 					kind = e.name[strings.Index(e.name, ":")+1:]
 				}
-				if added || snapString(after) != before {
-					return fail("voteset:invalid-vote-admitted:"+kind, fmt.Sprintf("AddVote(%s) returned added=%v err=%v and changed the tally", e.d, added, err))
-				}
-				if err == nil {
-					return fail("voteset:invalid-vote-no-error:"+kind, fmt.Sprintf("AddVote(%s) returned no error", e.d))
-				}
-				if _, isConf := err.(*types.ErrVoteConflictingVotes); isConf {
-					return fail("voteset:invalid-vote-surfaced-as-evidence:"+kind, fmt.Sprintf("AddVote(%s) produced duplicate-vote evidence from an invalid vote", e.d))
+				_, isConf := err.(*types.ErrVoteConflictingVotes)
+				if added || snapString(after) != before || err == nil || isConf {
+					return fail("voteset:invalid-vote-not-rejected:"+category(kind), fmt.Sprintf("AddVote(%s) returned added=%v err=%v (tally changed: %v); an invalid vote must be refused with an error, leave the tally alone and never become evidence",
+						e.d, added, err, snapString(after) != before))
 				}
 			}
 			if e.kind == evVote && e.valid {
-				equivocation := false
-				for blk := 0; blk < numIDs; blk++ {
-					if blk != e.d.block && m.delivered[[2]int{e.d.idx, blk}] {
-						equivocation = true
-					}
-				}
+				equivocation := earlier >= 0 && c.events[earlier].d.block != e.d.block
 				ce, isConf := err.(*types.ErrVoteConflictingVotes)
 				if want != clDuplicate && want != clNonDet && equivocation && !isConf {
 					return fail("voteset:equivocation-not-surfaced", fmt.Sprintf("validator %d already voted for another block id; AddVote(%s) returned added=%v err=%v instead of conflicting-vote evidence", e.d.idx, e.d, added, err))
@@ -501,62 +517,8 @@ func (c *vsCfg) checkEvidence(ce *types.ErrVoteConflictingVotes, e *event) (stri
 func (c *vsCfg) checkState(vs *types.VoteSet, m *model, prevMaj int) (string, string) {
 	w := c.w
 	snap := types.VerifC03Snapshot(vs)
-	// power of validators from whom any / a block-specific fully valid vote was delivered
-	anyPower := new(big.Int)
-	anySum := int64(0)
-	perBlock := map[int]*big.Int{}
-	for v := 0; v < w.n; v++ {
-		has := false
-		for blk := 0; blk < numIDs; blk++ {
-			if m.delivered[[2]int{v, blk}] {
-				has = true
-				if perBlock[blk] == nil {
-					perBlock[blk] = new(big.Int)
-				}
-				perBlock[blk].Add(perBlock[blk], big.NewInt(w.powers[v]))
-			}
-		}
-		if has {
-			anyPower.Add(anyPower, big.NewInt(w.powers[v]))
-			anySum += w.powers[v]
-		}
-	}
-	// at most one majority, sound, stable
-	id, ok := vs.TwoThirdsMajority()
-	gotMaj := -1
-	if ok {
-		gotMaj = idIndex(id)
-		if gotMaj < 0 {
-			return "voteset:maj23-unknown-block-id", fmt.Sprintf("TwoThirdsMajority reports %v which nobody voted for", id)
-		}
-		t := perBlock[gotMaj]
-		if t == nil {
-			t = new(big.Int)
-		}
-		if !w.quorum(t) {
-			return "voteset:maj23-without-quorum", fmt.Sprintf("TwoThirdsMajority reports %s but validators holding only %v of %v delivered a valid vote for it", idName[gotMaj], t, w.total)
-		}
-	}
-	if prevMaj >= 0 && gotMaj != prevMaj {
-		return "voteset:maj23-changed", fmt.Sprintf("two-thirds majority changed from %s to %v", idName[prevMaj], gotMaj)
-	}
-	if ok != vs.HasTwoThirdsMajority() || vs.IsCommit() != (ok && c.typ == types.VoteTypePrecommit) {
-		return "voteset:maj23-observers-disagree", "TwoThirdsMajority / HasTwoThirdsMajority / IsCommit disagree"
-	}
-	if vs.HasTwoThirdsAny() && !w.quorum(anyPower) {
-		return "voteset:two-thirds-any-without-quorum", fmt.Sprintf("HasTwoThirdsAny although validators holding only %v of %v voted", anyPower, w.total)
-	}
-	// every validator once in the round total
-	if snap.Sum != anySum {
-		return "voteset:round-sum-wrong", fmt.Sprintf("round sum %d, but the validators that delivered a valid vote hold %d", snap.Sum, anySum)
-	}
-	if vs.HasTwoThirdsAny() != w.quorum(anyPower) {
-		return "voteset:model-divergence:HasTwoThirdsAny", fmt.Sprintf("HasTwoThirdsAny=%v with %v of %v", vs.HasTwoThirdsAny(), anyPower, w.total)
-	}
-	if vs.HasAll() != (anyPower.Cmp(w.total) == 0) {
-		return "voteset:model-divergence:HasAll", "HasAll disagrees with the reference"
-	}
-	// every validator at most once per block id, and only with a valid vote for that id
+	// stored votes: only fully valid votes, each in its own validator's slot, each tally for one block id
+	tallyPower := map[int]*big.Int{}
 	for k, bt := range snap.ByBlock {
 		var s int64
 		blk := -1
@@ -577,11 +539,16 @@ func (c *vsCfg) checkState(vs *types.VoteSet, m *model, prevMaj int) (string, st
 			}
 			s += w.powers[v]
 		}
+		// every validator at most once per block id
 		if s != bt.Sum {
 			return "voteset:block-sum-wrong", fmt.Sprintf("block tally %x: sum %d, its distinct voters hold %d", k, bt.Sum, s)
 		}
+		if blk >= 0 {
+			tallyPower[blk] = big.NewInt(s)
+		}
 	}
-	// canonical votes: only valid votes, in their validator's slot
+	anyPower := new(big.Int)
+	anySum := int64(0)
 	for v, vote := range snap.Votes {
 		if vote == nil {
 			continue
@@ -590,6 +557,43 @@ func (c *vsCfg) checkState(vs *types.VoteSet, m *model, prevMaj int) (string, st
 		if !known || !c.events[eid].valid || c.events[eid].d.idx != v {
 			return "voteset:canonical-vote-invalid", fmt.Sprintf("slot %d of the vote set holds a vote that is not a valid vote of that validator", v)
 		}
+		anyPower.Add(anyPower, big.NewInt(w.powers[v]))
+		anySum += w.powers[v]
+	}
+	// every validator once in the round total
+	if snap.Sum != anySum {
+		return "voteset:round-sum-wrong", fmt.Sprintf("round sum %d, but the validators with a valid vote on record hold %d", snap.Sum, anySum)
+	}
+	// at most one majority, sound, stable
+	id, ok := vs.TwoThirdsMajority()
+	gotMaj := -1
+	if ok {
+		gotMaj = idIndex(id)
+		if gotMaj < 0 {
+			return "voteset:maj23-unknown-block-id", fmt.Sprintf("TwoThirdsMajority reports %v which nobody voted for", id)
+		}
+		t := tallyPower[gotMaj]
+		if t == nil {
+			t = new(big.Int)
+		}
+		if !w.quorum(t) {
+			return "voteset:maj23-without-quorum", fmt.Sprintf("TwoThirdsMajority reports %s but the validators with a valid vote for it hold only %v of %v", idName[gotMaj], t, w.total)
+		}
+	}
+	if prevMaj >= 0 && gotMaj != prevMaj {
+		return "voteset:maj23-changed", fmt.Sprintf("two-thirds majority changed from %s to %v", idName[prevMaj], gotMaj)
+	}
+	if ok != vs.HasTwoThirdsMajority() || vs.IsCommit() != (ok && c.typ == types.VoteTypePrecommit) {
+		return "voteset:maj23-observers-disagree", "TwoThirdsMajority / HasTwoThirdsMajority / IsCommit disagree"
+	}
+	if vs.HasTwoThirdsAny() && !w.quorum(anyPower) {
+		return "voteset:two-thirds-any-without-quorum", fmt.Sprintf("HasTwoThirdsAny although validators holding only %v of %v voted", anyPower, w.total)
+	}
+	if vs.HasTwoThirdsAny() != w.quorum(anyPower) {
+		return "voteset:model-divergence:HasTwoThirdsAny", fmt.Sprintf("HasTwoThirdsAny=%v with %v of %v", vs.HasTwoThirdsAny(), anyPower, w.total)
+	}
+	if vs.HasAll() != (anyPower.Cmp(w.total) == 0) {
+		return "voteset:model-divergence:HasAll", "HasAll disagrees with the reference"
 	}
 	// exact agreement with the reference tally
 	if gotMaj != m.maj23 {
@@ -610,6 +614,14 @@ func (c *vsCfg) checkState(vs *types.VoteSet, m *model, prevMaj int) (string, st
 			if e, ok := mb.voters[v]; !ok || c.events[e].vote != bt.Votes[v] {
 				return "voteset:model-divergence:block-tallies", fmt.Sprintf("tally of %s: voter %d differs from the reference", idName[blk], v)
 			}
+		}
+	}
+	if len(snap.Peers) != len(m.peers) {
+		return "voteset:model-divergence:peer-claims", "recorded peer claims differ from the reference"
+	}
+	for p, blk := range m.peers {
+		if id, ok := snap.Peers[p]; !ok || !id.Equals(blockIDs[blk]) {
+			return "voteset:model-divergence:peer-claims", "recorded peer claims differ from the reference"
 		}
 	}
 	ba := vs.BitArray()
